@@ -21,6 +21,7 @@ import (
 
 	"mycoverif/core"
 	"mycoverif/ident"
+	"mycoverif/simsync"
 )
 
 type world struct {
@@ -622,6 +623,71 @@ func run(e *core.Env) {
 			after := w.rt.VerifEntries()
 			if !reflect.DeepEqual(before, after) {
 				w.fail("changed-by-time", "table changed while only time passed")
+			}
+		}
+	}
+	// ---- a cleanup that runs while the table is used (a third of the runs) ----
+	// The cleaner is a worker of its own (every ten minutes); links come and go and announcements
+	// arrive while it runs. Package m runs under the cooperative scheduler here (sync replaced by
+	// yielding locks): the tape picks the running task at every lock operation. Whatever the
+	// interleaving: a peer route added meanwhile is there afterwards, a next hop removed
+	// meanwhile is gone from every route, and the routes of the other peers are still there.
+	if tp.Chance(1, 3) {
+		for round, rounds := 0, 1+tp.Intn(3); round < rounds; round++ {
+			np := nextHops[tp.Intn(len(nextHops))]
+			rm := nextHops[tp.Intn(len(nextHops))]
+			for k := 0; rm == np && k < len(nextHops); k++ {
+				rm = nextHops[k]
+			}
+			peerEntry := m.RoutingTableEntry{DstIP: np, NextHop: np, Source: m.RouteSourcePeer}
+			var added bool
+			var addErr error
+			tasks := []func(){func() { w.rt.Clean() }}
+			doAdd, doRm := tp.Chance(2, 3), rm != np && tp.Chance(1, 2)
+			if !doAdd && !doRm {
+				doAdd = true
+			}
+			if doAdd {
+				tasks = append(tasks, func() { added, addErr = w.rt.AddRoute(peerEntry) })
+			}
+			if doRm {
+				tasks = append(tasks, func() { w.rt.RemoveNextHop(rm) })
+			}
+			w.afterOp = fmt.Sprintf("Clean() concurrently with AddRoute(peer %s)=%v RemoveNextHop(%s)=%v", np, doAdd, rm, doRm)
+			w.opsTrace = append(w.opsTrace, w.afterOp)
+			st := simsync.RunTasks(func(n, cur int) int {
+				if cur >= 0 && !tp.Chance(1, 2) {
+					return cur
+				}
+				return tp.Intn(n)
+			}, tasks)
+			if st.Deadlock {
+				w.fail("table-tasks-deadlock", "%s deadlocked", w.afterOp)
+			}
+			for _, pn := range st.Panics {
+				w.fail("panic", "%s: %v", w.afterOp, pn)
+			}
+			after := w.rt.VerifEntries()
+			e.Ev("concurrent-clean", b2u(doAdd), b2u(doRm), b2u(added), uint64(st.Switches), uint64(len(after)))
+			if doAdd && addErr == nil && added {
+				w.peers[np] = true
+			}
+			if doRm {
+				delete(w.peers, rm)
+				for i := range after {
+					if after[i].NextHop == rm {
+						w.fail("removed-next-hop-kept/concurrent-clean", "%s (%d task switches): the route to %s still uses the removed next hop", w.afterOp, st.Switches, after[i].DstIP)
+					}
+				}
+			}
+			// (peer-route-lost is reported by the same oracle as in the sequential histories)
+			w.afterOp += fmt.Sprintf(" (%d task switches)", st.Switches)
+			w.checkPeersPresent(after, nil)
+			w.checkAlways(after)
+			e.Fault("task_switch")
+			e.Probe("cleanup_while_the_table_is_used")
+			if tp.Chance(1, 2) {
+				time.Sleep(11 * time.Minute)
 			}
 		}
 	}
